@@ -52,6 +52,14 @@ def check_doc(case) -> Res:
     if sp:
         viol.append(dict(descriptor="strict-profile:" + ",".join(strictprofile.classes(sp)), atoms=["strict-profile:" + c for c in strictprofile.classes(sp)],
                          case=dict(label=label, doc=d, choices={}), observed=f"{c0!r} violates {sp[:6]}", expected="canonical text in strict profile"))
+    # "exactly two spaces per level": the generator knows the LEVEL of every line of a model document (its own canonical
+    # rendering has level*2 spaces); where the emitter's text has the same lines, their indentation must agree
+    l0, lb = c0.split("\n"), base.text.split("\n")
+    if len(l0) == len(lb) and [x.strip() for x in l0] == [x.strip() for x in lb]:
+        bad = [i + 1 for i, (a, b) in enumerate(zip(l0, lb)) if (len(a) - len(a.lstrip(" "))) != (len(b) - len(b.lstrip(" ")))]
+        if bad:
+            viol.append(dict(descriptor="strict-profile:indent:not-two-spaces-per-model-level", atoms=["strict-profile:indent:not-two-spaces-per-model-level"],
+                             case=dict(label=label, doc=d, choices={}), observed=f"lines {bad[:8]} of {c0!r}", expected="indent = 2 x nesting level of the model"))
     choices, how = choice_space(d, _CFG["max_full"])
     texts = []
     steps = 2
@@ -138,6 +146,7 @@ def run(ctx):
     ctx.explore("structure", dm.structure_sweep(n, d), check_doc, chunk=10)
     ctx.explore("alias_rich", alias_rich_docs(), check_doc, chunk=2)
     ctx.explore("decoration", dm.decoration_sweep()[:: (3 if ctx.quick else 1)], check_doc, chunk=20)
+    ctx.explore("deep", dm.deep_docs(), check_doc, chunk=1)
     ctx.explore("targets", dm.target_docs(), check_doc, chunk=1)
     ctx.explore("comments", dm.comment_sweep(1 if ctx.quick else 2), check_doc, chunk=10)
     ctx.explore("write_lenient", dm.value_sweep(dm.SIMPLE_POOL) + alias_rich_docs()[:: (5 if ctx.quick else 1)], check_write, chunk=10)
